@@ -14,7 +14,9 @@ from .specgen import Doc, ref
 LEAVES = ["str", "int", "num", "bool", "str:date-time", "str:date", "str:uuid", "str:byte", "str:time", "enum_str", "enum_int",
           "ref_obj", "ref_enum", "ref_alias_dt", "any", "object_bare", "object_addl_true",
           # unions of models with disjoint required keys (so that first-match decoding is unambiguous), flat and nested
-          "oneof_refs", "anyof_refs", "anyof_named_union", "oneof_inline_union"]
+          "oneof_refs", "anyof_refs", "anyof_named_union", "oneof_inline_union",
+          # {"$ref": X, "nullable": true}: not valid 3.0 (siblings of $ref are ignored) but written by many tools
+          "ref_obj_sibling_nullable"]
 WRAPPERS = ["array", "map", "nullable", "inline", "nullable31"]   # nullable31: the OpenAPI 3.1 spellings (type arrays / anyOf null)
 
 
@@ -69,6 +71,10 @@ def leaf_node(leaf: str) -> tuple[dict, dict]:
         return {"type": "integer", "enum": vals}, {"kind": "enum_inline", "values": vals}
     if leaf == "ref_obj":
         return ref("Leaf"), {"kind": "ref", "target": "Leaf"}
+    if leaf == "ref_obj_sibling_nullable":
+        # siblings of $ref are ignored in OpenAPI 3.0, so null is NOT a conforming value here: the expectation is a plain
+        # reference (no null instances are produced); the leaf exists for what generators do when they meet the sibling
+        return dict(ref("Leaf"), nullable=True), {"kind": "ref", "target": "Leaf", "sibling_nullable": True}
     if leaf == "ref_enum":
         return ref("Colour"), {"kind": "ref_enum", "target": "Colour"}
     if leaf == "ref_alias_dt":
